@@ -169,6 +169,10 @@ type VerifStep struct {
 	Pd  int  `json:"pd"`  // logical depth of the path stack
 	Off int  `json:"off"` // register offset
 	Exp int  `json:"exp"` // expdepth
+	Sp  int  `json:"sp"`  // physical size of the data stack
+	Scp int  `json:"scp"` // physical size of the scope stack
+	Pp  int  `json:"pp"`  // physical size of the path stack
+	Nv  int  `json:"nv"`  // size of the register file
 }
 
 // VerifTracer, when set, is called before every instruction.
@@ -179,7 +183,8 @@ func (env *env) verifStep(pc int, backtrack bool) {
 		return
 	}
 	VerifTracer(VerifStep{pc, backtrack, len(env.forks), verifDepth(env.stack),
-		verifScopeDepth(env.scopes), verifDepth(env.paths), env.offset, env.expdepth})
+		verifScopeDepth(env.scopes), verifDepth(env.paths), env.offset, env.expdepth,
+		len(env.stack.data), len(env.scopes.data), len(env.paths.data), len(env.values)})
 }
 
 func verifDepth(s *stack) (n int) {
